@@ -126,8 +126,9 @@ def differs(old, new):
 
 class Proxy:
     """what supervisorctl talks to: reloadConfig is the real interface, the rest is recorded and applied by precondition"""
-    def __init__(self, rpc, active):
+    def __init__(self, rpc, active, fails=()):
         self.rpc, self.active, self.calls, self.file_names = rpc, list(active), [], None
+        self.fails = set(fails)   # groups one of whose processes cannot be stopped
         self.stopped = set()      # every group of the old file is running until it is stopped
     def reloadConfig(self):
         r = self.rpc.reloadConfig()
@@ -136,7 +137,14 @@ class Proxy:
     def getAllProcessInfo(self):
         return [{'group': n, 'name': n} for n in self.active]
     def stopProcessGroup(self, n):
-        self.calls.append('stop:' + L.hx(n)); self.stopped.add(n); return []
+        from supervisor.xmlrpc import Faults
+        self.calls.append('stop:' + L.hx(n))
+        if n in self.fails:
+            return [{'name': n, 'group': n, 'status': Faults.SUCCESS, 'description': 'OK'},
+                    {'name': n + '_x', 'group': n, 'status': Faults.FAILED, 'description': 'FAILED'}]
+        self.stopped.add(n)
+        return [{'name': n, 'group': n, 'status': Faults.SUCCESS, 'description': 'OK'},
+                {'name': n + '_y', 'group': n, 'status': Faults.NOT_RUNNING, 'description': 'NOT_RUNNING'}]
     def removeProcessGroup(self, n):
         from supervisor.compat import xmlrpclib
         from supervisor.xmlrpc import Faults
@@ -263,6 +271,25 @@ def one_pair(ctx, st, cfg, label, newsecs, tag):
                 touched = {bytes.fromhex(c.split(':')[1]).decode() for c in px.calls if c.split(':')[1] != '-'}
                 if touched - (set(res[0]) | set(res[1]) | set(res[2])):
                     ctx.violation('update-touched-unreported-group', 'calls %r for diff %s' % (px.calls, impl_diff), inp)
+        # a stop that reports a failure: the group is neither removed nor re-added (and nothing else is affected)
+        cand = sorted(set(res[1]) | set(res[2]))
+        if cand:
+            fl = rng_sample(ctx, cand, 1)
+            px = Proxy(rpc, [g.name for g in old_groups], fails=fl)
+            ctl = Ctl(px)
+            try:
+                DefaultControllerPlugin(ctl).do_update('')
+            except Exception as e:
+                ctx.violation('update-aborted:' + type(e).__name__, 'update with a failing stop of %r aborted after %r: %s' % (fl, px.calls, str(e)[:120]), inp)
+            ops.append('callsf %s' % ','.join(L.hx(x) for x in fl)); lines.append(' '.join(px.calls))
+            ctx.count('update:with-stop-failure')
+            for f in fl:
+                if 'remove:' + L.hx(f) in px.calls or ('add:' + L.hx(f) in px.calls and f not in res[0]):
+                    ctx.violation('update-removed-group-that-did-not-stop', 'stop of %s failed, calls %r' % (f, px.calls), inp)
+                if f not in px.active:
+                    ctx.violation('update-removed-group-that-did-not-stop', '%s no longer active' % f, inp)
+            if ctl.exitstatus == 0:
+                ctx.violation('update-failure-not-reported', 'exit status 0 although the stop of %r failed' % (fl,), inp)
     # ---- correspondence ---------------------------------------------------------------------------------
     inst = st_cls['RecParser'].instances
     ctx.case_done((label, repr(cfg['sections']), repr(newsecs)), label != 'unchanged')
@@ -317,7 +344,7 @@ TECHNIQUE = ("Lean 4 theorems over a model of config equality (compared attribut
              "ServerOptions + Supervisor.diff_to_active + reloadConfig + DefaultControllerPlugin.do_update")
 LEVEL_TEXT = ("equality is characterised field by field for every pair of configurations (eq_characterised, eq_refl), the three lists of the diff are "
               "characterised and disjoint for all group lists, reread provably leaves the group table alone and CANT_REREAD the whole state, "
-              "update's call sequence and its restriction to named groups are proved for all diffs; convergence of the whole update is checked by "
-              "correspondence and monitor only")
-LEVEL_NOTE = "update_converges is not proved (see report); stops are assumed to complete; the daemon side of add/remove is applied by precondition in the harness"
+              "update's call sequence, its restriction to named groups and the convergence of the whole update (active = file, unreported groups "
+              "untouched incl. pids, changed/added groups fresh, removed groups gone) are proved for all states and files under 'stops complete'")
+LEVEL_NOTE = "stops are assumed to complete (stopProcessGroup of the model); the daemon side of add/remove is applied by precondition in the harness proxy"
 DESIGN_REF = "DESIGN.md section 6, C15"
